@@ -48,7 +48,10 @@ def run_real(start, var_kw, seed, algo):
     alg = {"uncontrolled": lambda: UncontrolledCharging(),
            "fcfs": lambda: SortedSchedulingAlgo(first_come_first_served),
            "lcfs": lambda: SortedSchedulingAlgo(last_come_first_served),
-           "edf": lambda: SortedSchedulingAlgo(earliest_deadline_first)}[algo]()
+           "edf": lambda: SortedSchedulingAlgo(earliest_deadline_first),
+           "fcfs_unint": lambda: SortedSchedulingAlgo(first_come_first_served, uninterrupted_charging=True),
+           "edf_unint": lambda: SortedSchedulingAlgo(earliest_deadline_first, uninterrupted_charging=True),
+           }[algo]()
     sim = Simulator(net, alg, EventQueue(events), START, period=start["T"], verbose=False)
     with warnings.catch_warnings():
         warnings.simplefilter("ignore")
@@ -109,8 +112,14 @@ def metamorphic_real_schedulers(rep, bhvs, seed):
             algos += ["fcfs", "lcfs"]
         if _distinct_keys(start["sess"], lambda x: x["dep"]):
             algos.append("edf")
+            # uninterrupted charging ranks sessions by remaining time (= departure): no ties there either
+            algos.append("edf_unint")
+            if "fcfs" in algos:
+                algos.append("fcfs_unint")
         algo = algos[i % len(algos)]
-        base = dict(constraints=["agg", "3ph"][i % 2], evse_kinds=["finite"] * ns)
+        # heterogeneous finite-rate stations (different level sets, hence different minimum pilots)
+        kinds = [["finite", "finiteB", "finiteC"][(s + i) % 3] for s in range(ns)] if i % 2 else ["finite"] * ns
+        base = dict(constraints=["agg", "3ph"][(i // 2) % 2], evse_kinds=kinds)
         kws = [dict(base), dict(base), dict(base, st_perm=perm), dict(base, sess_perm=sp), dict(base, con_perm=True),
                dict(base, shift=r.choice([1, 2, 5])), dict(base, st_perm=perm, sess_perm=sp, con_perm=True)]
         jobs.append((start, kws, seed * 7 + i, algo))
